@@ -25,6 +25,9 @@ type Timer struct {
 	t *vsched.VTimer
 }
 
+// VT exposes the scheduler's timer (harness use).
+func (t *Timer) VT() *vsched.VTimer { return t.t }
+
 func (t *Timer) Stop() bool {
 	if t.t == nil {
 		panic("time: Stop called on uninitialized Timer")
